@@ -166,7 +166,7 @@ def run(ctx):
     server_bin("rel")
     replay_witnesses(ctx)
     open_ids = set(f["id"] for f in ctx.open_findings())
-    nprog, ns = (30, 20) if ctx.quick else (800, 40)
+    nprog, ns = (60, 20) if ctx.quick else (800, 40)
     for p in pmap(worker, [("%s/%d" % (ctx.seed, i), nprog, ns, open_ids) for i in range(NCPU)]): ctx.merge(p)
     ctx.rule = ("cursor positions = (kind: statement start | after := / call ( / if ( / while ( | after : of a parameter / variable declaration | top-level gap, beginning and end of file) x "
                 "(context: after { ; }, nesting depth, before the closing }, first/middle/last declaration) x (placement: inside white space, touching the next token, own line, touching the "
